@@ -240,7 +240,11 @@ def parse_raw_http(data: bytes) -> Union[HttpRequest, HttpResponse]:
     # urlsplit keeps `;parameters` of the last path segment in the path (urlparse would strip them)
     result = urlsplit(uri)
     uri = result.path
-    params = dict(parse_qsl(result.query))
+    # percent-decode to the exact bytes (parse_qsl on bytes input only accepts ASCII results)
+    params = {
+        key.encode("latin-1"): value.encode("latin-1")
+        for key, value in parse_qsl(result.query.decode("latin-1"), encoding="latin-1")
+    }
     return HttpRequest(method=method, body=body, headers=headers, uri=uri, params=params)
 
 
